@@ -153,8 +153,13 @@ def r3_ready(prog, rep: Report, pf: PoolFacts, wrun: Func):
                         ev = d[1]
                         loop_ok = not any(isinstance(x, (ast.Break, ast.Return, ast.If)) for x in ast.walk(n))
     if ev is None:
-        rep.viol("C04.R3", uar, "waits-all", "until_all_ready does not wait (without timeout) on an event of every element of self.procs",
-                 scenario="until_all_ready() returns while a worker is still inside begin()")
+        waits = [c for c in calls_in(uar.node) if isinstance(c.func, ast.Attribute) and c.func.attr == "wait" and not c.args and not c.keywords]
+        if waits and any(isinstance(n_, ast.Attribute) and n_.attr == "procs" for n_ in ast.walk(uar.node)):
+            # it waits without timeout on something reached from self.procs, but not in the `for p in self.procs` form
+            rep.unrec("C04.R3", uar, "waits-all", f"`{src(waits[0])}`: the walk over self.procs is not the plain `for p in self.procs` loop")
+        else:
+            rep.viol("C04.R3", uar, "waits-all", "until_all_ready does not wait (without timeout) on an event of every element of self.procs",
+                     scenario="until_all_ready() returns while a worker is still inside begin()")
         return
     # every path through until_all_ready runs the wait loop: it is a top-level statement (possibly inside `with` blocks) and no
     # statement before it can leave the function
